@@ -79,7 +79,32 @@ def run(F, R, ctx):
                "equal? compares SteelVal::%s structurally but <SteelVal as Hash>::hash hashes its address: two equal values "
                "of this kind land in different buckets, so an equal key does not find the entry" % v, h.loc(),
                sample={"hash_calls": hc.get(v, ("", []))[1]})
+    union_rule(F, R)
     for v in sorted(hc):
         R.inst("C11.h", "hash arm %s is implemented" % v, hc[v][0] != "panic",
                "<SteelVal as Hash>::hash panics for SteelVal::%s: using such a value as a key aborts the host" % v, h.loc(),
                nontrivial=False)
+
+
+def union_rule(F, R):
+    R.rule("C11.u", "hash-union is left-biased in every ownership arm (sibling agreement): each call of the persistent map's "
+                    "union in hm_union takes (a value derived from) the left operand as receiver and the right operand as "
+                    "argument, so the result on duplicate keys does not depend on which operand happened to be uniquely owned")
+    fn = F.one(r"^steel::primitives::hashmaps::hm_union$")
+    us = [(i, b) for i, b in fn.calls() if re.search(r"::union$", b["callee"])]
+    R.floor("C11.u", "union calls in hm_union", len(us), 3)
+    tl = lib.tainted_locals(fn, ["_1"])
+    tr = lib.tainted_locals(fn, ["_2"])
+    for n_, (i, b) in enumerate(us):
+        a0 = set(re.findall(r"_\d+", b["args"][0]))
+        a1 = set(re.findall(r"_\d+", b["args"][1])) if len(b["args"]) > 1 else set()
+        recv_left = bool(a0 & tl) and not (a0 & tr and not a0 & tl)
+        arg_right = bool(a1 & tr)
+        # a local can be tainted by both when it was assigned in both arms; require the discriminating direction
+        ok = bool(a0 & tl) and bool(a1 & tr) and not (bool(a0 & tr) and not bool(a0 & tl))
+        only_right_recv = bool(a0 & tr) and not bool(a0 & tl)
+        R.inst("C11.u", "hm_union / union call #%d is left.union(right)" % n_, ok and not only_right_recv,
+               "hm_union calls union with the right operand as receiver (line %s): the persistent map keeps the receiver's "
+               "value on duplicate keys, so this ownership arm is right-biased while its siblings are left-biased — "
+               "(hash-union a b) returns a different value for a shared key depending on how a and b are owned" % b["line"],
+               fn.loc(b["line"]), sample={"receiver": b["args"][0], "argument": b["args"][1] if len(b["args"]) > 1 else ""})
